@@ -18,27 +18,27 @@ import (
 // scriptedServer is an adversarial/recording MCP peer for the library clients. It answers the
 // handshake correctly and hands every other request to onCall; it never uses library types.
 type scriptedServer struct {
-	mode        string // sj | ss | ls | io
-	fab         *memnet.Fabric
-	c2s, s2c    *memnet.Pipe
-	onCall      func(w scriptWriter)
-	onRequest   func(msg map[string]interface{}, raw string, w scriptWriter) bool // return true when answered
-	initReply   func(id string) string                                            // custom initialize result (raw JSON of the whole response)
-	initHook    func(w scriptWriter, id string) bool                              // custom handling of initialize
-	noInitted   bool                                                              // refuse notifications/initialized
-	received    []string                                                          // every JSON-RPC message received
-	httpLog     []string
-	stream      *memnet.ResponseWriter // legacy SSE / GET stream
-	streamUp    hx.Flag
-	stopped     hx.Flag
-	sid         string
-	getStatus   int                  // status for GET on Streamable (0 = serve a stream)
-	deleteStatus int                 // status for DELETE on Streamable (0 = 200)
-	onStream    func(w scriptWriter) // called once the background stream is open
-	childExit   func()               // stdio: effect of the child process exiting
-	urlSuffix   string               // appended to the URL given to the client constructors (e.g. "?api_key=k")
-	gateConnect *hx.Flag             // legacy SSE: the server stalls before the headers of the connect GET until set
-	gateInit    *hx.Flag             // the server withholds its answer to initialize until set
+	mode         string // sj | ss | ls | io
+	fab          *memnet.Fabric
+	c2s, s2c     *memnet.Pipe
+	onCall       func(w scriptWriter)
+	onRequest    func(msg map[string]interface{}, raw string, w scriptWriter) bool // return true when answered
+	initReply    func(id string) string                                            // custom initialize result (raw JSON of the whole response)
+	initHook     func(w scriptWriter, id string) bool                              // custom handling of initialize
+	noInitted    bool                                                              // refuse notifications/initialized
+	received     []string                                                          // every JSON-RPC message received
+	httpLog      []string
+	stream       *memnet.ResponseWriter // legacy SSE / GET stream
+	streamUp     hx.Flag
+	stopped      hx.Flag
+	sid          string
+	getStatus    int                  // status for GET on Streamable (0 = serve a stream)
+	deleteStatus int                  // status for DELETE on Streamable (0 = 200)
+	onStream     func(w scriptWriter) // called once the background stream is open
+	childExit    func()               // stdio: effect of the child process exiting
+	urlSuffix    string               // appended to the URL given to the client constructors (e.g. "?api_key=k")
+	gateConnect  *hx.Flag             // legacy SSE: the server stalls before the headers of the connect GET until set
+	gateInit     *hx.Flag             // the server withholds its answer to initialize until set
 }
 
 // scriptWriter writes on the channel on which the answer to the current request is expected.
